@@ -179,6 +179,38 @@ def generate():
     if not any(n.startswith("ebpf_audit_map") for n, _, _ in ints):
         raise Missing("%s: audit_map declaration not found" % f)
 
+    # ---- eBPF program constants and user-id extraction sites (C06) ----
+    for n in ("BPF_SOCK_ADDR_VERDICT_PROCEED", "IPPROTO_TCP", "AF_INET"):
+        I("ebpf_" + n.lower(), regex_int("linux-ebpf/socket.h", r"#define\s+%s\s+(\w+)" % n, {}, n), "linux-ebpf/socket.h")
+    I("rust_ipproto_tcp", eval_int(rust_const("proxy_agent/src/redirector/linux/ebpf_obj.rs", "IPPROTO_TCP"), {}),
+      "proxy_agent/src/redirector/linux/ebpf_obj.rs")
+    # which bits of bpf_get_current_uid_gid() each site records as the user id: `>> n` -> n,
+    # `& 0xFFFFFFFF` or a plain (__u32) cast -> 0; anything else is not understood (fail loudly)
+    for fn, coq in (("update_local_map_entry", "ebpf_uid_shift_connect4"), ("trace_v4", "ebpf_uid_shift_tcp_connect")):
+        body = re.search(r"\b%s\s*\([^)]*\)\s*\{(.*?)\n\}" % fn, c, flags=re.S)
+        if not body:
+            raise Missing("%s: function %s not found" % (f, fn))
+        sites = re.findall(r"\buid\s*=\s*([^;]*bpf_get_current_uid_gid[^;]*);", body.group(1))
+        if len(sites) != 1:
+            raise Missing("%s: expected exactly one `uid = ...bpf_get_current_uid_gid()...` in %s, found %d" % (f, fn, len(sites)))
+        e = re.sub(r"\s+", "", sites[0])
+        m = (re.fullmatch(r"\(__u32\)\(bpf_get_current_uid_gid\(\)>>(\d+)\)", e)
+             or re.fullmatch(r"\(__u32\)\(?bpf_get_current_uid_gid\(\)()\)?", e)
+             or re.fullmatch(r"\(__u32\)\(bpf_get_current_uid_gid\(\)&(?:0[xX][fF]{8}|4294967295)[uUlL]*()\)", e))
+        if not m:
+            raise Missing("%s: cannot understand the user-id expression %r in %s" % (f, sites[0], fn))
+        I(coq, int(m.group(1) or 0), f)
+    # lookup_audit: which sock_addr_audit_entry field feeds each AuditEntry field (index into
+    # [logon_id, process_id, is_root, destination_ipv4, destination_port]); casts must be the known ones
+    f = "proxy_agent/src/redirector/linux.rs"
+    lit = regex_str(f, r"pub fn lookup_audit\b.*?Ok\(AuditEntry\s*\{(.*?)\}\)", "AuditEntry literal in lookup_audit")
+    order = ["logon_id", "process_id", "is_root", "destination_ipv4", "destination_port"]
+    for field, cast in (("logon_id", "u64"), ("process_id", None), ("is_admin", "i32"), ("destination_ipv4", None), ("destination_port", "u16")):
+        m = re.search(r"\b%s\s*:\s*audit_value\.(\w+)\s*(?:as\s+(\w+))?\s*," % field, lit)
+        if not m or m.group(1) not in order or m.group(2) != cast:
+            raise Missing("%s: lookup_audit: cannot understand how AuditEntry.%s is filled" % (f, field))
+        I("rust_lookup_audit_src_" + field, order.index(m.group(1)), f)
+
     # ---- provisioning (C16) ----
     f = "proxy_agent/src/provision.rs"
     flags = re.findall(r"const\s+(\w+)\s*=\s*([^;]+);", regex_str(f, r"bitflags::bitflags!\s*\{(.*?)\n\}", "ProvisionFlags"))
